@@ -119,7 +119,7 @@ def main():
         "hooks": {
             "guard": "verif",
             "enable": "go build tag: the harness module (replace github.com/rhysd/actionlint => /repo) is compiled with `-tags verif`",
-            "baseline_off_cmd": "cd /repo && go test -vet=off -count=1 ./...",
+            "baseline_off_cmd": "cd /repo && GOFLAGS=-mod=mod go test -json -vet=off -count=1 -timeout 25m ./...",
             "source_commits": HOOK_COMMITS,
             "add_only": True,
         },
@@ -131,6 +131,6 @@ def main():
     json.dump(m, open(os.path.join(ROOT, "MANIFEST.json"), "w"), indent=1)
     print("checks:", len(checks), "not claimed:", len(na))
 
-HOOK_COMMITS = ["33bd68d"]
+HOOK_COMMITS = ["33bd68d"]  # verif_hooks.go, verif_hooks_off.go, verifSched(...) lines in process.go
 if __name__ == "__main__":
     main()
